@@ -254,12 +254,9 @@ func vwUFBytes(name string, n int, args ...interface{}) []byte {
 	return b[:n]
 }
 
-// Lengths of the opaque blobs on the symbolic side (tokens: nothing depends on the numbers; fixed
-// lengths keep the string solver away from length arithmetic).
-const (
-	vwRawTxLen = 100
-	vwPsbtLen  = 120
-)
+// Length of a serialisation made by the Serialize model (a token: nothing depends on the number;
+// short fixed lengths keep the string solvers away from length arithmetic and long models).
+const vwRawTxLen = 8
 
 func vwHashString(h chainhash.Hash) string { return zzverif.UFStr("hashstr", string(h[:])) }
 
@@ -348,7 +345,7 @@ func (a *vwAddr) IsForNet(*chaincfg.Params) bool { return true }
 
 func vwEncodeSegWit(a *btcutil.AddressSegWit) string {
 	prog := a.ScriptAddress()
-	s := zzverif.UFStr("bech32", string(prog))
+	s := "bcrt1:" + hex.EncodeToString(prog) // injective, like bech32
 	vw.addrs = append(vw.addrs, vwAddrRec{s, prog})
 	return s
 }
@@ -465,23 +462,31 @@ func vwAddrScript(addr string) []byte {
 	return s
 }
 
-func vwHash32(name string) chainhash.Hash {
+// vwCoinTxid: id of the i-th coin the wallet spends (fixed; the adapters never look at it).
+func vwCoinTxid(i int) chainhash.Hash {
 	var h chainhash.Hash
-	copy(h[:], zzverif.Bytes(name, 32))
+	copy(h[:], bytes.Repeat([]byte{byte(0xc0 + i)}, 32))
 	return h
 }
 
 // vwSetup draws the swap parameters (arbitrary keys, payment hash, amount) and builds the client.
-func vwSetup() (*Client, *vwWorld) {
+func vwSetup(anyKeys bool) (*Client, *vwWorld) {
 	w := &vwWorld{}
 	vw = w
 	vwInstall()
 	w.net = vwChain()
 	w.est = &vwEstimator{}
 	w.chain = onchain.NewBitcoinOnChain(w.est, 0, 0, w.net)
-	w.maker = zzverif.Bytes("maker", 33)
-	w.taker = zzverif.Bytes("taker", 33)
-	w.hash = zzverif.Bytes("hash", 32)
+	if anyKeys {
+		w.maker = zzverif.Bytes("maker", 33)
+		w.taker = zzverif.Bytes("taker", 33)
+		w.hash = zzverif.Bytes("hash", 32)
+		zzverif.Assume(!bytes.Equal(w.maker, w.taker)) // equal keys: C02's subject
+	} else {
+		w.maker = append([]byte{0x02}, bytes.Repeat([]byte{0x11}, 32)...)
+		w.taker = append([]byte{0x03}, bytes.Repeat([]byte{0x22}, 32)...)
+		w.hash = bytes.Repeat([]byte{0x33}, 32)
+	}
 	w.params = &swap.OpeningParams{
 		TakerPubkey:      hex.EncodeToString(w.taker),
 		MakerPubkey:      hex.EncodeToString(w.maker),
@@ -574,8 +579,7 @@ func (k *vwKit) FundPsbt(ctx context.Context, in *walletrpc.FundPsbtRequest, opt
 				amountInFront = true
 			}
 		}
-		cs := zzverif.Bytes("fund.change_script", 22)
-		zzverif.Assume(!bytes.Equal(cs, script))
+		cs := zzverif.Bytes("fund.change_script", 22) // P2WPKH-sized; never the 34-byte swap script
 		tx.AddTxOut(wire.NewTxOut(v, cs))
 	}
 	if k.region == vwChangeAmountFirst {
@@ -584,16 +588,16 @@ func (k *vwKit) FundPsbt(ctx context.Context, in *walletrpc.FundPsbtRequest, opt
 	m := 1 + zzverif.Choice("fund.more_inputs", 2)
 	pkt := &psbt.Packet{UnsignedTx: tx}
 	for i := 0; i < m; i++ {
-		h := vwHash32("fund.in_txid")
+		h := vwCoinTxid(i)
 		tx.AddTxIn(wire.NewTxIn(wire.NewOutPoint(&h, zzverif.U32("fund.in_vout")), nil, nil))
 		v := zzverif.I64("fund.in_value")
 		zzverif.Assume(v >= 0)
 		zzverif.Assume(v <= vwMaxSats)
 		k.inValues = append(k.inValues, v)
-		pkt.Inputs = append(pkt.Inputs, psbt.PInput{WitnessUtxo: wire.NewTxOut(v, zzverif.Bytes("fund.in_script", 23))})
+		pkt.Inputs = append(pkt.Inputs, psbt.PInput{WitnessUtxo: wire.NewTxOut(v, bytes.Repeat([]byte{0x51}, 23))})
 	}
 	pkt.Outputs = make([]psbt.POutput, n)
-	blob := zzverif.Bytes("fund.psbt", vwPsbtLen)
+	blob := []byte("psbt:funded") // symbolic side: a token
 	if !zzverif.Symbolic() {
 		blob = vwSerializePsbt(pkt)
 	}
@@ -629,14 +633,13 @@ func (k *vwKit) FinalizePsbt(ctx context.Context, in *walletrpc.FinalizePsbtRequ
 		if zzverif.Bool("finalize.nested") {
 			// nested segwit coin: the redeem script goes into the scriptSig, which the txid covers
 			k.anyNested = true
-			final.TxIn[i].SignatureScript = zzverif.Bytes("finalize.sigscript", 23)
+			final.TxIn[i].SignatureScript = zzverif.Bytes("finalize.sigscript", 3)
 			pin.FinalScriptSig = final.TxIn[i].SignatureScript
 		}
 		final.TxIn[i].Witness = wire.TxWitness{[]byte{0x30}}
 		signed.Inputs = append(signed.Inputs, pin)
 	}
-	raw := zzverif.Bytes("finalize.rawtx", vwRawTxLen)
-	sblob := zzverif.Bytes("finalize.psbt", vwPsbtLen)
+	raw, sblob := []byte("rawtx:final"), []byte("psbt:signed") // symbolic side: tokens
 	if !zzverif.Symbolic() {
 		raw = vwSerializeTx(final)
 		sblob = vwSerializePsbt(signed)
@@ -709,7 +712,7 @@ func vwNewSigner(w *vwWorld, name string, key byte) *vwSigner {
 
 func (s *vwSigner) Sign(hash []byte) (*btecdsa.Signature, error) {
 	s.hashes = append(s.hashes, hash)
-	der := zzverif.Bytes(s.name, 71)
+	der := zzverif.Bytes(s.name, 9)
 	var sig *btecdsa.Signature
 	if zzverif.Symbolic() {
 		sig = new(btecdsa.Signature)
@@ -732,8 +735,8 @@ const (
 )
 
 // vwOpening runs CreateOpeningTransaction against the lnd stand-in.
-func vwOpening(region int) {
-	cl, w := vwSetup()
+func vwOpening(region int, anyKeys bool) {
+	cl, w := vwSetup(anyKeys)
 	k := w.kit
 	k.region = region
 	rawTxHex, addr, txId, fee, vout, err := cl.CreateOpeningTransaction(w.params)
@@ -799,13 +802,13 @@ func vwOpening(region int) {
 // Bounds: 1..3 outputs (swap output at any position), 1..2 inputs each native or nested segwit.
 // Region: no CHANGE output carries exactly the swap amount (the complement is
 // H_C08_lndOpeningChangeEqualsAmount).
-func H_C08_lndOpening() { vwOpening(vwChangeNotAmount) }
+func H_C08_lndOpening() { vwOpening(vwChangeNotAmount, false) }
 
 // H_C08_lndOpeningChangeEqualsAmount: the same property on the complementary region: some change
 // output placed IN FRONT of the swap output carries exactly the swap amount.  (A change output of
 // that value BEHIND the swap output is harmless and belongs to neither region's interest; it is
 // covered here only together with one in front.)
-func H_C08_lndOpeningChangeEqualsAmount() { vwOpening(vwChangeAmountFirst) }
+func H_C08_lndOpeningChangeEqualsAmount() { vwOpening(vwChangeAmountFirst, false) }
 
 // ---------------------------------------------------------------------------------------
 // C03: Create{Preimage,Csv,Coop}SpendingTransaction
@@ -825,7 +828,7 @@ func vwOpeningTx(w *vwWorld) (string, int, *wire.MsgTx) {
 	n := 3 - zzverif.Choice("opening.outputs_below_max", 3)
 	k := zzverif.Choice("opening.swap_index", n)
 	tx := wire.NewMsgTx(2)
-	h := vwHash32("opening.in_txid")
+	h := vwCoinTxid(0)
 	tx.AddTxIn(wire.NewTxIn(wire.NewOutPoint(&h, zzverif.U32("opening.in_vout")), nil, nil))
 	for i := 0; i < n; i++ {
 		if i == k {
@@ -838,7 +841,7 @@ func vwOpeningTx(w *vwWorld) (string, int, *wire.MsgTx) {
 		}
 		tx.AddTxOut(wire.NewTxOut(v, zzverif.Bytes("opening.other_script", 22)))
 	}
-	blob := zzverif.Bytes("opening.rawtx", vwRawTxLen)
+	blob := []byte("rawtx:opening") // symbolic side: a token
 	if !zzverif.Symbolic() {
 		blob = vwSerializeTx(tx)
 	}
@@ -846,10 +849,13 @@ func vwOpeningTx(w *vwWorld) (string, int, *wire.MsgTx) {
 	return hex.EncodeToString(blob), k, tx
 }
 
-func vwSpend(kind int) {
-	cl, w := vwSetup()
+func vwSpend(kind int, anyKeys bool) {
+	cl, w := vwSetup(anyKeys)
 	openHex, k, openTx := vwOpeningTx(w)
-	preimage := zzverif.Bytes("preimage", 32)
+	preimage := bytes.Repeat([]byte{0x44}, 32)
+	if anyKeys {
+		preimage = zzverif.Bytes("preimage", 32)
+	}
 	own := vwNewSigner(w, "own_signature", 0x31)
 	peer := vwNewSigner(w, "taker_signature", 0x32)
 	claim := &swap.ClaimParams{Preimage: hex.EncodeToString(preimage), Signer: own, OpeningTxHex: openHex}
@@ -973,6 +979,6 @@ func vwSpend(kind int) {
 // exactly once the sighash of (redeem script, input 0, SIGHASH_ALL, Amount) of that transaction;
 // witness = [sig|01, preimage, "", "", script] / [sig|01, script] / [taker sig|01, own sig|01, "", script].
 // Bounds: opening tx <= 3 outputs; fee rate whole 0..65535 sat/vB.
-func H_C03_lndSpendPreimage() { vwSpend(vwPreimage) }
-func H_C03_lndSpendCsv()      { vwSpend(vwCsv) }
-func H_C03_lndSpendCoop()     { vwSpend(vwCoop) }
+func H_C03_lndSpendPreimage() { vwSpend(vwPreimage, false) }
+func H_C03_lndSpendCsv()      { vwSpend(vwCsv, false) }
+func H_C03_lndSpendCoop()     { vwSpend(vwCoop, false) }
